@@ -3,7 +3,8 @@ C19 — command-line options resolve to a consistent configuration.
 
 Translator: the flag table (value, default, implies, exclusive_with), the -O level table and the
 clusters of related flags are re-extracted from the current nmfu.py into
-lean/NmfuModel/Generated/Flags.lean; `lake build` re-checks NmfuProps/C19.lean against them.
+lean/NmfuModel/Generated/Flags.lean; `lake build` re-checks NmfuProps/C19.lean and C19Order.lean
+(order independence for every command line) against them.
 Correspondence + direct evaluation on the real `ProgramData.load_commandline_flags`:
   * every assignment (absent / on / off) of the flags related by implies / exclusive metadata x
     every -O level (thorough: all; quick: every single-cluster assignment + a seeded sample),
@@ -22,7 +23,10 @@ from common import Check
 
 THEOREMS = ["Nmfu.C19_override_beats_level", "Nmfu.C19_levels_cumulative", "Nmfu.C19_related_flags_consistent",
             "Nmfu.C19_order_independent_partial", "Nmfu.clusters_closed", "Nmfu.lastVal_normalize",
-            "Nmfu.resolve_get_unrelated"]
+            "Nmfu.resolve_get_unrelated",
+            # NmfuProps/C19Order.lean: projection onto closed sets of flags, and order freedom of the whole table
+            "Nmfu.resolveNF_proj_some", "Nmfu.resolveNF_fail_cluster", "Nmfu.resolveNF_order_free",
+            "Nmfu.C19_cluster_order_free", "Nmfu.C19_order_independent_all", "Nmfu.C19_order_independent_perm_all"]
 
 
 def main():
@@ -30,7 +34,7 @@ def main():
     import translate
     changed = translate.regenerate({"Flags.lean"})
     ck.coverage["generated_tables_changed"] = changed
-    ck.lean_obligations("NmfuProps.C19", THEOREMS)
+    ck.lean_obligations("NmfuProps.C19Order", THEOREMS)
     from nmfu_api import nmfu
     from modeldrv import Model
     model = Model()
